@@ -1,0 +1,165 @@
+//! Verification hooks. This module only exists when the crate is built with
+//! `--cfg abasic_verif`; nothing in a normal build refers to it.
+//!
+//! It exposes, read-only and as canonical text, a few things that are private
+//! to the crate: the tokenizer and DATA parser, and (through the
+//! `verif_snapshot` methods on the state-holding structs) the runtime state
+//! of an interpreter. It also keeps two thread-local logs: the number of
+//! token-cursor reads and the arguments/results of every `powf` call.
+
+use std::cell::{Cell, RefCell};
+
+use crate::{
+    data::{parse_data_until_colon, DataElement},
+    string_manager::StringManager,
+    syntax_error::TokenizationError,
+    tokenizer::{Token, Tokenizer},
+};
+
+thread_local! {
+    static PEEKS: Cell<u64> = Cell::new(0);
+    static POWS: RefCell<Vec<(u64, u64, u64)>> = RefCell::new(Vec::new());
+}
+
+pub(crate) fn count_peek() {
+    PEEKS.with(|c| c.set(c.get() + 1));
+}
+
+pub(crate) fn log_pow(x: f64, y: f64, r: f64) {
+    POWS.with(|p| p.borrow_mut().push((bits(x), bits(y), bits(r))));
+}
+
+/// Returns the number of token-cursor reads since the last call, and resets it.
+pub fn take_peek_count() -> u64 {
+    PEEKS.with(|c| c.replace(0))
+}
+
+/// Returns the `(x, y, x.powf(y))` bit patterns logged since the last call.
+pub fn take_pow_log() -> Vec<(u64, u64, u64)> {
+    POWS.with(|p| std::mem::take(&mut *p.borrow_mut()))
+}
+
+/// Bit pattern of a double, with every NaN mapped to one canonical pattern.
+pub fn bits(x: f64) -> u64 {
+    if x.is_nan() {
+        0x7ff8_0000_0000_0000
+    } else {
+        x.to_bits()
+    }
+}
+
+/// Escapes text so that it can be embedded in the `|`/`;`/`,`-separated
+/// canonical formats below: printable ASCII except the separators is kept,
+/// every other byte becomes `\xHH`.
+pub fn esc(s: &str) -> String {
+    let mut out = String::with_capacity(s.len());
+    for &b in s.as_bytes() {
+        let keep = (0x20..=0x7e).contains(&b)
+            && !matches!(
+                b,
+                b'\\' | b'|' | b';' | b',' | b'=' | b'[' | b']' | b'{' | b'}' | b'@' | b':'
+            );
+        if keep {
+            out.push(b as char);
+        } else {
+            out.push_str(&format!("\\x{:02x}", b));
+        }
+    }
+    out
+}
+
+pub(crate) fn data_element(e: &DataElement) -> String {
+    match e {
+        DataElement::String(s) => format!("S{}", esc(s)),
+        DataElement::Number(n) => format!("N{:016x}", bits(*n)),
+    }
+}
+
+/// Canonical text of a token: the variant name, plus the payload for the
+/// five payload-carrying variants.
+pub fn token(t: &Token) -> String {
+    match t {
+        Token::Remark(s) => format!("Remark[{}]", esc(s)),
+        Token::Symbol(s) => format!("Symbol[{}]", esc(s.as_str())),
+        Token::StringLiteral(s) => format!("StringLiteral[{}]", esc(s)),
+        Token::NumericLiteral(n) => format!("NumericLiteral[{:016x}]", bits(*n)),
+        Token::Data(elements) => format!(
+            "Data[{}]",
+            elements
+                .iter()
+                .map(data_element)
+                .collect::<Vec<_>>()
+                .join(",")
+        ),
+        other => format!("{:?}", other),
+    }
+}
+
+fn tokenization_error(e: &TokenizationError) -> String {
+    match e {
+        TokenizationError::IllegalCharacter(i) => format!("IllegalCharacter@{}", i),
+        TokenizationError::UnterminatedStringLiteral(i) => {
+            format!("UnterminatedStringLiteral@{}", i)
+        }
+        TokenizationError::InvalidNumber(r) => format!("InvalidNumber@{}-{}", r.start, r.end),
+    }
+}
+
+/// Tokenizes `line` after skipping `skip` bytes. Returns the tokens with their
+/// byte ranges as `token@start-end;...`, and, if tokenization failed, the error.
+pub fn tokenize(line: &str, skip: usize) -> (String, Option<String>) {
+    let mut manager = StringManager::default();
+    let mut tokens = vec![];
+    let mut error = None;
+    for item in Tokenizer::new(line, &mut manager).skip_bytes(skip) {
+        match item {
+            Ok((t, range)) => tokens.push(format!("{}@{}-{}", token(&t), range.start, range.end)),
+            Err(e) => error = Some(tokenization_error(&e)),
+        }
+    }
+    (tokens.join(";"), error)
+}
+
+/// Runs the DATA / INPUT item parser on `text`. Returns the items and the
+/// number of bytes consumed.
+pub fn parse_data(text: &str) -> (String, usize) {
+    let (elements, chomped) = parse_data_until_colon(text, None);
+    (
+        elements
+            .iter()
+            .map(data_element)
+            .collect::<Vec<_>>()
+            .join(","),
+        chomped,
+    )
+}
+
+/// Canonical text of an error: `Debug` of the error kind, `@`, its location.
+pub fn error(e: &crate::TracedInterpreterError) -> String {
+    format!(
+        "{:?}@{}",
+        e.error,
+        match &e.location {
+            None => "none".to_string(),
+            Some(location) => crate::program::verif_location(location),
+        }
+    )
+}
+
+/// Canonical text of an analyzer message: `W`/`E`, file line, location, text.
+pub fn diagnostic(m: &crate::DiagnosticMessage) -> String {
+    match m {
+        crate::DiagnosticMessage::Warning(file_line, location, text) => format!(
+            "W@{}@{}@{}",
+            file_line,
+            match location {
+                None => "none".to_string(),
+                Some(nloc) => crate::program::verif_location(&(*nloc).into()),
+            },
+            esc(text)
+        ),
+        crate::DiagnosticMessage::Error(file_line, e) => {
+            format!("E@{}@{}@{}", file_line, error(e), esc(&e.to_string()))
+        }
+    }
+}
